@@ -897,6 +897,13 @@ def _visible_spec(d, hide, empty):
     return [i for i in range(len(hide)) if not hide[i] and not (prune and empty[i])]
 
 
+
+def _tiny_regime(case):
+    from fractions import Fraction as _F
+    ws = [_F(w) for w, _ in case.get("survey") or []]
+    return bool(case.get("weighted")) and bool(ws) and max(ws) < _F(1, 2 ** 20)
+
+
 def evaluate(case, louts, ctx):
     vars_, survey = sc.load(case)
     kinds = sc.kinds_of(vars_)
@@ -984,6 +991,11 @@ def evaluate(case, louts, ctx):
                                 ("scale_mean_stderr", "stderr")):
                 got = common.call_impl(lambda: getattr(sl, "%s_%s" % (axis, lib_nm)))
                 exp = None if sv is None else sv[fld]
+                if lib_nm == "scale_mean_stderr" and _tiny_regime(case):
+                    # all weights x 2^-40: std-err = (rounding-level std-dev ~1e-15 where the exact value is 0) / sqrt(margin ~1e-11)
+                    # lifts float cancellation to ~1e-9 against the exact model - rounding, not a defect (DESIGN section 10)
+                    ctx.count("skipped:scale_mean_stderr.tiny-weight-regime")
+                    continue
                 _cmp(findings, "model", "pipeline.slice.%s_%s" % (axis, lib_nm), got, exp, det)
             mp = t["%s_margin_proportion" % axis]
             if mp is not None:      # 1-D case only (the 2-D fallback across an array dimension is known finding F13)
@@ -1110,6 +1122,8 @@ def _eval_strand(case, cube, dim, op, lo, ctx, kinds, tr):
             findings.append({"kind": "model", "locus": "pipeline.strand.%s.absent-measure" % nm,
                              "detail": "%s impl=%s model=%s" % (det, sc._short(got), sc._short(t[nm]))})
     for nm in ("scale_mean", "scale_median", "scale_std_dev", "scale_std_err"):
+        if nm == "scale_std_err" and _tiny_regime(case):
+            continue    # see the slice twin: float cancellation lifted by 1/sqrt(tiny margin)
         _cmp(findings, "model", "pipeline.strand.%s" % nm, common.call_impl(lambda: getattr(st_, nm)), t[nm], det)
     _cmp(findings, "model", "pipeline.strand.rows_base", common.call_impl(lambda: st_.rows_base), t["unweighted_counts"], det)
     _cmp(findings, "model", "pipeline.strand.rows_margin", common.call_impl(lambda: st_.rows_margin), t["counts"], det)
